@@ -1319,18 +1319,47 @@ func c20CreateStoresGivenValue(r *core.Run, rule string, m *ssa.Function) {
 		r.Unres(rule, core.FuncName(m)+".<resource-write>", "no Txn.Set / Entry.Value write in the create handler")
 		return
 	}
-	for i, w := range written {
-		good, why := false, "the bytes written are not the result of json.Marshal"
-		if ex, ok := valueOrigin(p, w, 0).(*ssa.Extract); ok && ex.Index == 0 {
-			if mc, ok := ex.Tuple.(*ssa.Call); ok && core.CalleeName(mc) == "encoding/json.Marshal" {
-				o := valueOrigin(p, mc.Call.Args[0], 0)
-				if prm, ok := o.(*ssa.Parameter); ok && prm.Parent() == m {
-					good = true
-				} else {
-					why = "the value encoded is " + valDesc(o) + ", not the handler's value parameter as it was handed in (the variable is re-assigned or converted before it is encoded)"
+	for i, w0 := range written {
+		for _, w := range unitArgs(p, core.Strip(w0), seen, 0) { // a write helper shared by several sites
+			if k, isC := w.(*ssa.Const); isC && k.IsNil() {
+				continue
+			}
+			good, why := false, "the bytes written are not the result of json.Marshal"
+			if ex, ok := valueOrigin(p, w, 0).(*ssa.Extract); ok && ex.Index == 0 {
+				if mc, ok := ex.Tuple.(*ssa.Call); ok && core.CalleeName(mc) == "encoding/json.Marshal" {
+					o := valueOrigin(p, mc.Call.Args[0], 0)
+					if prm, ok := o.(*ssa.Parameter); ok && prm.Parent() == m {
+						good = true
+					} else {
+						why = "the value encoded is " + valDesc(o) + ", not the handler's value parameter as it was handed in (the variable is re-assigned or converted before it is encoded)"
+					}
 				}
 			}
+			r.Check(good, rule, core.FuncName(m), "stored-bytes<-json.Marshal(value-parameter)", p.InstrPos(at[i]), "the resource is stored as the encoding of the value handed in", "the create handler does not store the encoding of the value it was given: "+why+" - get serves something else than the created data, and later events fold over the wrong base")
 		}
-		r.Check(good, rule, core.FuncName(m), "stored-bytes<-json.Marshal(value-parameter)", p.InstrPos(at[i]), "the resource is stored as the encoding of the value handed in", "the create handler does not store the encoding of the value it was given: "+why+" - get serves something else than the created data, and later events fold over the wrong base")
 	}
+}
+
+// unitArgs is paramArgs restricted to call sites inside the given functions.
+func unitArgs(p *core.Prog, v ssa.Value, in map[*ssa.Function]bool, depth int) []ssa.Value {
+	prm, ok := v.(*ssa.Parameter)
+	if !ok || depth > 4 || !p.IsPrivateHelper(prm.Parent()) {
+		return []ssa.Value{v}
+	}
+	idx := -1
+	for i, q := range prm.Parent().Params {
+		if q == prm {
+			idx = i
+		}
+	}
+	var out []ssa.Value
+	for _, c := range p.CallersOf(prm.Parent()) {
+		if in[c.Parent()] && idx >= 0 && idx < len(c.Common().Args) {
+			out = append(out, unitArgs(p, core.Strip(c.Common().Args[idx]), in, depth+1)...)
+		}
+	}
+	if len(out) == 0 {
+		return []ssa.Value{v}
+	}
+	return out
 }
